@@ -12,11 +12,12 @@ from __future__ import annotations
 
 import json
 
+from vlib import common as C
 from vlib.common import clist
 
 ID = "C06"
 PROPERTIES_V = "theories/Properties/C06.v"
-CASE_IMPORTS = "From GV Require Import Prelude.Base Model.Registry."
+CASE_IMPORTS = "From GV Require Import Prelude.Base Model.Registry.\nFrom GVgen Require Import C06Cfg."
 ALLOWED_AXIOMS: list = []
 REFUTED = [
     "C06_cross_kind_unique_refuted (a group may be created under the identifier of a live object: the registries are per kind)",
@@ -58,6 +59,50 @@ KINDS = ["group", "object", "data", "pg", "type"]
 KCOQ = {"group": "KGroup", "object": "KObject", "data": "KData", "pg": "KPG", "type": "KType"}
 REG_ATTR = {"group": "_groups", "object": "_objects", "data": "_data", "pg": "_property_groups", "type": "_types"}
 LISTING = {"group": "groups", "object": "objects", "data": "data", "type": "types"}
+
+
+# ----------------------------------------------------------------------------- regeneration: behavioural probe -> cfg
+GEN = C.COQ / "generated" / "C06Cfg.v"
+PROBE = r"""
+import os, tempfile, warnings
+warnings.simplefilter("ignore")
+import numpy as np
+from geoh5py import Workspace
+from geoh5py.objects import Points
+d = tempfile.mkdtemp()
+ws = Workspace.create(os.path.join(d, "p.geoh5"))
+o = Points.create(ws, vertices=np.zeros((2, 3)))
+try:
+    Points.create(ws, vertices=np.zeros((2, 3)), uid=o.uid)
+    print("PROBE accepted")
+except RuntimeError:
+    print("PROBE rollback" if len(ws.root.children) == 1 else "PROBE leftover")
+ws.close()
+"""
+
+
+def regenerate(repo):
+    import subprocess
+
+    env = dict(C.impl_env())
+    env["PYTHONPATH"] = f"{repo}:{C.VERIF / 'tools'}"
+    p = subprocess.run([C.PY, "-c", PROBE], capture_output=True, text=True, env=env, timeout=120)
+    if "PROBE rollback" in p.stdout:
+        rb = True
+    elif "PROBE leftover" in p.stdout:
+        rb = False
+    else:
+        raise RuntimeError("refused-creation probe: unrecognised behaviour: " + (p.stdout + p.stderr)[-400:])
+    text = (
+        "(* generated by tools/props/c06.py from a behavioural probe of the checked tree (is the parent assignment undone when\n"
+        "   registration is refused?); do not edit *)\n"
+        "From GV Require Import Model.Registry.\n"
+        "Definition cur : cfg := {| rollback := %s |}.\n" % ("true" if rb else "false")
+    )
+    GEN.parent.mkdir(exist_ok=True)
+    if not GEN.exists() or GEN.read_text() != text:
+        GEN.write_text(text)
+    return {"tables": {"probe": {"rollback": rb}}}
 
 
 # ----------------------------------------------------------------------------- shadow used by the generator (what exists, roughly)
@@ -186,6 +231,7 @@ def random_history(rng):
                     if sh.e[c]["kind"] == "data" and sh.e[c]["att"]:
                         kk = sh.new("data", tws, k)
                         uid_owner[kk] = kk
+                        sh.e[kk]["inpg"] = sh.e[c]["inpg"]
                 for c in list(sh.e[e]["children"]):
                     if sh.e[c]["kind"] == "pg" and sh.e[c]["att"] and sh.e[c]["ok"]:
                         kk = sh.new("pg", tws, k)
@@ -204,6 +250,14 @@ def random_history(rng):
             if not gone:
                 continue
             es = rng.sample(gone, rng.range(1, len(gone)))
+            # whatever still points to a dying instance (a removed child keeps its _parent) has to go with it
+            grew = True
+            while grew:
+                grew = False
+                for k, rr in sh.e.items():
+                    if k not in es and not rr["dead"] and rr["kind"] != "type" and rr["parent"] in es:
+                        es.append(k)
+                        grew = True
             for k in es:
                 sh.e[k]["dead"] = True
             for key, t in list(sh.types.items()):
@@ -232,6 +286,13 @@ class _Rec:
         self.kind = []
         self.ws = []
         self.orig = {}
+        self.ordmap = weakref.WeakKeyDictionary()  # instance -> ordinal (nothing is written on the instances)
+
+    def ordof(self, obj):
+        try:
+            return self.ordmap.get(obj, 998)
+        except TypeError:
+            return 998
 
     def add(self, obj, kind, ws):
         k = len(self.refs)
@@ -239,7 +300,7 @@ class _Rec:
         self.uid.append(None)
         self.kind.append(kind)
         self.ws.append(ws)
-        obj.__dict__["_verif_ord"] = k
+        self.ordmap[obj] = k
         return k
 
     def install(self, wss):
@@ -300,8 +361,7 @@ def _observe(rec, wss, out):
     for k in range(n):
         rep.setdefault(rec.uid[k], k)
 
-    def ordof(x):
-        return x.__dict__.get("_verif_ord", 998)
+    ordof = rec.ordof
 
     ser = [out, n]
     for k in range(n):
@@ -385,8 +445,23 @@ def drive_one(case, work):
                 tab[k] = x
             del x
 
+    def need(cond):
+        if not cond:
+            raise LookupError("operation not applicable (the model answers BadOp)")
+
     def apply(op):
         t = op["op"]
+        if t == "create":
+            need(rec.kind[op["parent"]] == "group" and rec.ws[op["parent"]] == op["ws"])
+        if t in ("data", "pg"):
+            need(rec.kind[op["o"]] == "object")
+        if t == "copy":
+            need(op["e"] in tab and op["t"] in tab)
+            ke, kt = rec.kind[op["e"]], rec.kind[op["t"]]
+            need((ke == "data" and kt == "object") or (ke in ("group", "object") and kt == "group"))
+        if t == "remove":
+            need(op["e"] in tab and rec.kind[op["e"]] in ("group", "object", "data") and op["e"] not in (1, 3)
+                 and not getattr(tab[op["e"]], "children", []))
         if t == "create":
             kw = {"parent": inst(op["parent"]), "name": f"n{len(rec.refs)}"}
             if op["u"]:
@@ -424,7 +499,7 @@ def drive_one(case, work):
             len(getattr(wss[op["ws"]], LISTING[op["k"]]))
         elif t == "lookup":
             r = wss[op["ws"]].get_entity(rec.uid[op["e"]])[0]
-            return 2 if r is None else 10 + r.__dict__.get("_verif_ord", 900)
+            return 2 if r is None else 10 + rec.ordof(r)
         return 0
 
     try:
@@ -538,12 +613,12 @@ def case_term(case, obs):
         return "false"
     if any(not 0 <= x < 4000 for x in obs["final"]):
         return "false"
-    return "agree %s [%s] [%s]" % (_hist_term(case), ";".join("%d%%N" % digest(s) for s in obs["per_op"]),
+    return "agree cur %s [%s] [%s]" % (_hist_term(case), ";".join("%d%%N" % digest(s) for s in obs["per_op"]),
                                    ";".join(str(x) for x in obs["final"]))
 
 
 def model_term(case):
-    return "(let (l, w) := run_obs init %s in (l, final_trace w))" % _hist_term(case)
+    return "(let (l, w) := run_obs cur init %s in (l, final_trace w))" % _hist_term(case)
 
 
 # ----------------------------------------------------------------------------- oracle (property text)
@@ -663,8 +738,10 @@ def oracle(case, obs):
                 srcs = [e] + [c for c in prev["insts"][e]["ch"] if prev["insts"][c]["kind"] == "data"] + list(prev["insts"][e]["pgs"])
                 if prev["insts"][e]["kind"] == "group":
                     srcs = [e]
+                taken = set(before_reps)
                 for s, k in zip(srcs, created):
-                    free = prev["insts"][s]["rep"] not in before_reps
+                    free = prev["insts"][s]["rep"] not in taken  # identifiers taken by the earlier parts of this very copy count
+                    taken.add(insts[k]["rep"])
                     if free and insts[k]["rep"] != prev["insts"][s]["rep"]:
                         add("cross-ws-copy-drops-free-identifier", f"op {i}: copy {k} of {s} got a new identifier although #{prev['insts'][s]['rep']} was free in workspace {dst_ws}")
                     if not free and insts[k]["rep"] == prev["insts"][s]["rep"]:
@@ -682,7 +759,8 @@ def oracle(case, obs):
         prev = o
     for k, (status, _) in enumerate(obs.get("reopen", [])):
         if status != "ok":
-            add("reopen-fails", f"workspace {k} cannot be re-opened: {status}")
+            collided = seen & {"cross-kind-identifier-shared", "refused-creation-left-in-parent"}
+            add("reopen-fails-after-identifier-collision" if collided else "reopen-fails", f"workspace {k} cannot be re-opened: {status}")
     return fails
 
 
